@@ -39,14 +39,31 @@ Proof.
 Qed.
 Print Assumptions C20_frame_values.
 
+(* the parameter names are completed with the default types in force when the call is made (DataSegment.complete_name
+   at evaluation time): the frame property holds whatever DEFINT/DEFSNG/DEFDBL/DEFSTR statements were executed
+   between the definition and the call, or between two calls (d is any table of default types) *)
+Theorem C20_frame_any_deftype : forall c fuel f args st d, Good c st -> Jt st ->
+  let st0 := set_deft st d in
+  let '(st', r) := evaluate c (parse c fuel) f args st0 in
+  Good c st' /\ active st' = active st0 /\
+  (forall n, sval_of c st' n = sval_of c st0 n) /\ (forall n i, aval_of c st' n i = aval_of c st0 n i).
+Proof.
+  intros c fuel f args st d G J.
+  assert (G0 : Good c (set_deft st d)).
+  { apply (Good_containers c st _ G); [unfold same_mem; simpl; repeat split; reflexivity| |]; simpl; [exact (g_stack _ _ G)|exact (g_tvals _ _ G)]. }
+  pose proof (C20_frame_values c fuel f args (set_deft st d) G0 J) as H. cbv zeta.
+  destruct (evaluate c (parse c fuel) f args (set_deft st d)) as [st' r]. tauto.
+Qed.
+Print Assumptions C20_frame_any_deftype.
+
 (* a function that is already being evaluated raises Out of memory (after its arguments have been evaluated
    and converted), and touches nothing *)
 Theorem C20_recursion : forall c ev f args st ps body st1,
   lookup f (fns st) = Some (ps, body) ->
-  eval_args ev ps args st = (st1, Ok tt) -> mem_z f (active st1) = true ->
+  eval_args ev (map (resolve st) ps) args st = (st1, Ok tt) -> mem_z f (active st1) = true ->
   snd (evaluate c ev f args st) = Err 7.
 Proof.
-  intros c ev f args st ps body st1 Hf Ha Hm. unfold evaluate. rewrite Hf. unfold finallyR, bindR. rewrite Ha, Hm. reflexivity.
+  intros c ev f args st ps body st1 Hf Ha Hm. unfold evaluate, evaluate_call. rewrite Hf. unfold finallyR, bindR. rewrite Ha, Hm. reflexivity.
 Qed.
 Print Assumptions C20_recursion.
 
@@ -69,8 +86,8 @@ Print Assumptions C20_undefined.
    generated function reads its parameters) *)
 Definition C20_binding_statement : Prop :=
   forall (c : cfg) (ev : expr -> state -> R obj) (f : Z) (args : list expr) (st st1 st2 st3 : state)
-         (ps : list Z) (body : expr),
-    lookup f (fns st) = Some (ps, body) -> NoDup ps ->
+         (ps0 : list Z) (body : expr),
+    lookup f (fns st) = Some (ps0, body) -> let ps := map (resolve st) ps0 in NoDup ps ->
     eval_args ev ps args st = (st1, Ok tt) -> mem_z f (active st1) = false ->
     save_params c ps [] st1 = (st2, Ok tt) ->
     bind_params c ps 0 (Nat.min (length ps) (length args)) (length (tvals st2) - length (tvals st1)) st2 = (st3, Ok tt) ->
